@@ -389,6 +389,22 @@ def run(pid, tier, seed):
             ("empty rows", LP("min", [[F(1), F(0), INF]], [["L", F(1, 3), F(0), []], ["R", F(-2, 3), F(5, 7), []]]))]
     lps += [("denominators", LP("min", [[F(1, 3 ** k), F(-1, 7 ** k), F(10 ** k, 3)] for k in range(1, 12)],
                                 [["R", F(2, 3 ** 30), F(1, 10 ** 20), [(j, F(1, 3 ** (j + 1))) for j in range(11)]]]))]
+    # values of ordinary size whose numerator and denominator are very long (beyond 53 and beyond 1024 bits): the conversion has to
+    # look at the quotient, not at the two parts
+    def longq(r):
+        k = r.choice([18, 25, 60, 120, 310, 330, 400])
+        kind = r.choice(["near1", "third", "rand"])
+        if kind == "near1":
+            return F(10 ** k + r.rint(1, 9), 10 ** k) * r.choice([1, -1, 7])
+        if kind == "third":
+            return F(10 ** k + 1, 3 * 10 ** k + r.rint(1, 5))
+        return F(r.rint(10 ** (k - 1), 10 ** k), r.rint(10 ** (k - 1), 10 ** k) | 1) * r.choice([1, -1])
+    for k in range(8 if quick else 150):
+        r = rng.fork("longparts%d" % k)
+        n, m = r.rint(1, 4), r.rint(1, 3)
+        cols = [[longq(r), -abs(longq(r)), abs(longq(r)) + 1] if r.chance(0.7) else [longq(r), NINF, INF] for _ in range(n)]
+        rows = [[r.choice("LGE"), longq(r), F(0), [(j, longq(r)) for j in range(n) if r.chance(0.8)]] for _ in range(m)]
+        lps.append(("longparts", LP(r.choice(["min", "max"]), cols, rows)))
     def moderate(lp):
         nums = [v for c in lp.cols for v in c if v not in (INF, NINF)] + [v for r in lp.rows for v in (r[1], r[2])] + [a for r in lp.rows for _, a in r[3]]
         return all(v == 0 or F(1, 2 ** 900) < abs(F(v)) < F(2 ** 900) for v in nums)
@@ -465,6 +481,12 @@ def run(pid, tier, seed):
                               signature={"symptom": "lowprec-infinity", "which": which})
                 continue
             prs = [(orig[q], got[q]) for q in numpos if orig[q] not in ("inf", "-inf")]
+            import re as _re
+            notnum = [pr_ for pr_ in prs if not _re.fullmatch(r"-?\d+(/\d+)?", pr_[1])]
+            if notnum:
+                rep.violation("a number of the %s copy is not a number: %s -> %s" % (which, notnum[0][0][:80], notnum[0][1][:40]), dict(ctx, pair=list(notnum[0])),
+                              signature={"symptom": "lowprec-conversion", "which": which})
+                continue
             # parameters: integer ones identical, rational ones through the conversion check (limits at +-infinity compared as numbers)
             if qpar is not None:
                 if proto.get(qpar, "iparams") != proto.get(blk, "iparams"):
